@@ -120,6 +120,23 @@ fn first_diff(g: &Group22, flips: &[(String, String)], a: &Trace, b: &Trace) -> 
         }
     }
     differing.sort();
+    // a violation needs a difference at a real sink
+    let is_sink = |s: u16| g.sinks.iter().find(|k| k.site == s).map(|k| k.is_sink).unwrap_or(false);
+    let &(_, first_sink) = differing.iter().find(|d| is_sink(d.1))?;
+    // attribution: among the sink and its upstream observation points
+    let mut anc: Vec<u16> = vec![first_sink];
+    let mut i = 0;
+    while i < anc.len() {
+        if let Some(k) = g.sinks.iter().find(|k| k.site == anc[i]) {
+            for p in &k.preds {
+                if !anc.contains(p) {
+                    anc.push(*p);
+                }
+            }
+        }
+        i += 1;
+    }
+    let differing: Vec<(u32, u16)> = differing.into_iter().filter(|d| anc.contains(&d.1)).collect();
     let &(tick, _) = differing.first()?;
     let now: Vec<u16> = differing.iter().filter(|d| d.0 == tick).map(|d| d.1).collect();
     let root = now
